@@ -3,6 +3,7 @@ import Complgen.Model.Quote
 import Complgen.Model.Pipeline
 import Complgen.Cert.Search
 import Complgen.Cert.Canon
+import Complgen.Cert.Det
 import Complgen.Spec.Den
 import Complgen.Gen.Chains
 import Complgen.Gen.Tables
@@ -121,7 +122,7 @@ def handle (line : String) : String :=
     | some sh, some g =>
       let m := Spec.meaning g sh
       let a := (Spec.toSRx Spec.wordKey m).toKAuto
-      s!"ok {KAuto.wire a} ## {m.text.trimAsciiEnd.toString} ## {" ".intercalate ((Spec.wordsOf m).map Spec.wordKey)}"
+      s!"ok {KAuto.wire a} ## {m.text.trimAsciiEnd.toString} ## {" ".intercalate ((Spec.wordsOf m).map Spec.wordKey)} ## {" ".intercalate ((Spec.wordsOf m).map fun c => hashKey c.eraseSpans.text)}"
     | _, _ => "bad-op"
   | ["canon", a] =>
     match parseKAuto a with
@@ -137,6 +138,22 @@ def handle (line : String) : String :=
       | .error w => "differ " ++ " ".intercalate w
       | .ok R => if Cert.bisimCheck a b R then s!"equiv {R.length}" else "search-failed"
     | _, _ => "bad-op"
+  | ["worddet", a] =>
+    match parseKAuto a with
+    | some a =>
+      if Cert.wordDetCheck a Cert.wordClass then "det" else
+      match Cert.wordConflict a Cert.wordClass with
+      | some (q, k1, k2, t1, t2) => s!"conflict {q} {k1} {k2} {t1} {t2}"
+      | none => "search-failed"
+    | none => "bad-op"
+  | ["conflicts", a] =>
+    match parseKAuto a with
+    | some a => "ok " ++ " ".intercalate ((Cert.wordConflictPairs a Cert.wordClass).map fun (x, y) => s!"{x},{y}")
+    | none => "bad-op"
+  | ["eraselevels", a] =>
+    match parseKAuto a with
+    | some a => "ok " ++ KAuto.wire (a.mapKeys Cert.eraseLevel)
+    | none => "bad-op"
   | ["minimal", a] =>
     match parseKAuto a with
     | some a =>
